@@ -501,122 +501,232 @@ Proof.
   destruct m, m'; cbn in *; subst; reflexivity.
 Qed.
 
-(** * The passive decryptor *)
+(** * The passive decryptor: materials and keys in lists, managers cached per (key, material index) *)
+Lemma lookup_store_same k i x l : lookup k i (store k i x l) = Some x.
+Proof.
+  induction l as [|[[k' i'] m] r IH]; cbn [lookup store].
+  - rewrite bytes_eqb_refl, N.eqb_refl. reflexivity.
+  - destruct (bytes_eqb k k' && N.eqb i i')%bool eqn:Eq; cbn [lookup]; rewrite Eq; [reflexivity|exact IH].
+Qed.
+
+Fixpoint indexed (i : N) (l : list material) : list (N * material) :=
+  match l with [] => [] | m :: r => (i, m) :: indexed (N.succ i) r end.
+
 Section Decryptor.
   Variable E : bytes -> bytes -> bytes.
   Hypothesis E_length : forall k b, length (E k b) = 16.
-  Variable key : bytes.
-  Variable mat : material.
-  Variable st0 : mgr.
-  Hypothesis Hst0 : mk_manager E key mat = Ok st0.
 
-  (** the decryptor's cache is empty (then the manager it builds is [st0]) or holds [rx] *)
-  Definition cache_inv (mgrs : list (bytes * mgr)) (rx : mgr) : Prop :=
-    (mgrs = [] /\ rx = st0) \/ mgrs = [(key, rx)].
+  (** a (material of index i, key) combination that reports failure and leaves the cache as it is *)
+  Definition combo_rejects (mgrs : list ((bytes * N) * mgr)) (pdu : bytes) (i : N) (mat : material) (k : bytes) : Prop :=
+    try_key E mgrs k i mat pdu = (mgrs, Ok None).
 
-  Lemma store_inv mgrs rx x : cache_inv mgrs rx -> store key x mgrs = [(key, x)].
+  Lemma try_keys_skip i mat pdu mgrs ks2 : forall ks1,
+    Forall (combo_rejects mgrs pdu i mat) ks1 ->
+    try_keys E mgrs (ks1 ++ ks2) i mat pdu = try_keys E mgrs ks2 i mat pdu.
   Proof.
-    intros [[-> _]| ->]; cbn [store]; [reflexivity|].
-    rewrite bytes_eqb_refl. reflexivity.
+    induction ks1 as [|k r IH]; intros H; [reflexivity|].
+    inversion H as [|? ? Hk Hr]; subst. cbn [app try_keys]. rewrite Hk. apply IH. exact Hr.
   Qed.
 
-  Lemma lookup_inv mgrs rx : cache_inv mgrs rx ->
-    match lookup key mgrs with Some m => Ok m | None => mk_manager E key mat end = Ok rx.
+  Lemma try_keys_all_reject i mat pdu mgrs ks :
+    Forall (combo_rejects mgrs pdu i mat) ks -> try_keys E mgrs ks i mat pdu = (mgrs, Ok None).
+  Proof. intros H. rewrite <- (app_nil_r ks). rewrite try_keys_skip by exact H. reflexivity. Qed.
+
+  Lemma try_mats_skip pdu mgrs ks ms2 : forall ms1 i,
+    Forall (fun im => Forall (combo_rejects mgrs pdu (fst im) (snd im)) ks) (indexed i ms1) ->
+    try_mats E mgrs ks i (ms1 ++ ms2) pdu = try_mats E mgrs ks (i + N.of_nat (length ms1))%N ms2 pdu.
   Proof.
-    intros [[-> ->]| ->]; cbn [lookup]; [exact Hst0|].
-    rewrite bytes_eqb_refl. reflexivity.
+    induction ms1 as [|m r IH]; intros i H.
+    - cbn [app length]. rewrite N.add_0_r. reflexivity.
+    - cbn [indexed] in H. inversion H as [|? ? Hm Hr]; subst. cbn [fst snd] in Hm. cbn [app try_mats].
+      rewrite (try_keys_all_reject i m pdu mgrs ks Hm). rewrite (IH (N.succ i) Hr).
+      f_equal. cbn [length]. lia.
   Qed.
 
-  Lemma try_key_captured mgrs tx rx d h l rest c :
-    cache_inv mgrs rx -> sk tx = sk rx -> iv tx = iv rx ->
-    (cnt rx d <= cnt tx d)%N ->
+  (** The materials are tried in order and, for each, the keys in order: combinations tried
+      before the right one do not matter as long as they reject; the first accepting
+      combination gives the result. Arbitrary decryptor state. *)
+  Lemma attempt_material_list (ds : dstate) pdu ms1 mat ms2 ks1 key ks2 mgrs' p :
+    mats ds = ms1 ++ mat :: ms2 -> keys ds = ks1 ++ key :: ks2 ->
+    (N.eqb (nth 1 pdu 0%N) 0 && N.eqb (N.land (nth 0 pdu 0%N) 3) 1)%bool = false ->
+    Forall (fun im => Forall (combo_rejects (managers ds) pdu (fst im) (snd im)) (keys ds)) (indexed 0 ms1) ->
+    Forall (combo_rejects (managers ds) pdu (N.of_nat (length ms1)) mat) ks1 ->
+    try_key E (managers ds) key (N.of_nat (length ms1)) mat pdu = (mgrs', Ok (Some p)) ->
+    attempt E ds pdu = ({| keys := keys ds; mats := mats ds; managers := mgrs' |}, Ok (Some p)).
+  Proof.
+    intros Hm Hk Hne Hms Hks Hhit. unfold attempt.
+    destruct (mats ds) as [|m0 mr] eqn:Em; [destruct ms1; discriminate|].
+    destruct (keys ds) as [|k0 kr] eqn:Ek; [destruct ks1; discriminate|].
+    rewrite Hne. rewrite Hm. rewrite try_mats_skip by exact Hms. rewrite N.add_0_l.
+    cbn [try_mats]. rewrite Hk. rewrite try_keys_skip by exact Hks.
+    cbn [try_keys]. rewrite Hhit. rewrite <- Hm, <- Hk. reflexivity.
+  Qed.
+
+  (** the right (key, material) of a session recovers its PDU whatever else is cached:
+      [rx] is the manager the decryptor uses for it (cached one, or a fresh one) *)
+  Lemma try_key_session mgrs key i mat tx rx d h l rest c :
+    match lookup key i mgrs with Some m => Ok m | None => mk_manager E key mat end = Ok rx ->
+    sk tx = sk rx -> iv tx = iv rx -> (cnt rx d <= cnt tx d)%N ->
     encrypt E tx (h :: l :: rest) d = Ok c ->
     let a := air_pdu c in
     let gap := N.to_nat (cnt tx d - cnt rx d) in
     gap < 2 -> rejects_from E rx d (cnt rx d) gap a = true ->
     match d with M2S => true | S2M => rejects_from E rx M2S (cnt rx M2S) 2 a end = true ->
-    try_key E mgrs key mat a
-    = ([(key, incr (set_cnt rx d (cnt tx d)) d)], Ok (Some (h :: l :: rest))).
+    try_key E mgrs key i mat a
+    = (store key i (incr (set_cnt rx d (cnt tx d)) d) mgrs, Ok (Some (h :: l :: rest))).
   Proof.
-    intros Hinv Hk Hi Hle He a gap Hgap Hrej Hcross.
+    intros Heff Hk Hi Hle He a gap Hgap Hrej Hcross.
     rewrite encrypt_shape in He. injection He as <-.
     unfold air_pdu in a. cbn iota in a.
     assert (Hc : cnt tx d = (cnt rx d + N.of_nat gap)%N) by (unfold gap; lia).
     destruct (decrypt_encrypt_gen E E_length tx rx h l (l + 4)%N rest d 2 gap Hk Hi Hc Hgap Hrej) as [Hd _].
     fold a in Hd.
-    unfold try_key. rewrite (lookup_inv mgrs rx Hinv).
+    unfold try_key. rewrite Heff.
     destruct d.
-    - rewrite Hd. cbn [strip_mic_len]. rewrite (store_inv mgrs rx _ Hinv).
-      rewrite N.add_sub. reflexivity.
-    - destruct (tamper_fails_if_mac_differs E E_length rx a M2S 2) as [p Hf];
+    - rewrite Hd. cbn [strip_mic_len]. rewrite N.add_sub. reflexivity.
+    - destruct (tamper_fails_if_mac_differs E E_length rx a M2S 2) as [q Hf];
         [unfold a; discriminate|lia|exact Hcross|].
-      rewrite Hf. rewrite Hd. cbn [strip_mic_len]. rewrite (store_inv mgrs rx _ Hinv).
-      rewrite N.add_sub. reflexivity.
+      rewrite Hf. rewrite Hd. cbn [strip_mic_len]. rewrite N.add_sub. reflexivity.
   Qed.
 
-  Lemma attempt_captured mgrs tx rx d h l rest c :
-    cache_inv mgrs rx -> sk tx = sk rx -> iv tx = iv rx ->
-    (cnt rx d <= cnt tx d)%N ->
-    encrypt E tx (h :: l :: rest) d = Ok c ->
-    let a := air_pdu c in
-    let gap := N.to_nat (cnt tx d - cnt rx d) in
-    gap < 2 -> rejects_from E rx d (cnt rx d) gap a = true ->
-    match d with M2S => true | S2M => rejects_from E rx M2S (cnt rx M2S) 2 a end = true ->
-    attempt E {| keys := [key]; mats := [mat]; managers := mgrs |} a
-    = ({| keys := [key]; mats := [mat]; managers := [(key, incr (set_cnt rx d (cnt tx d)) d)] |},
-       Ok (Some (h :: l :: rest))).
-  Proof.
-    intros Hinv Hk Hi Hle He a gap Hgap Hrej Hcross.
-    pose proof (try_key_captured mgrs tx rx d h l rest c Hinv Hk Hi Hle He Hgap Hrej Hcross) as Ht.
-    fold a in Ht.
-    unfold attempt. cbn [mats keys managers].
-    assert (Hnz : (N.eqb (nth 1 a 0%N) 0 && N.eqb (N.land (nth 0 a 0%N) 3) 1)%bool = false).
-    { rewrite encrypt_shape in He. injection He as <-. unfold a, air_pdu. cbn [nth].
-      replace (N.eqb (l + 4) 0) with false by (symmetry; apply N.eqb_neq; lia). reflexivity. }
-    rewrite Hnz. cbn [try_mats try_keys]. rewrite Ht. reflexivity.
-  Qed.
+  (** ** one session, its key and material anywhere in the decryptor's lists, from ANY cache *)
+  Variables (ks1 : list bytes) (key : bytes) (ks2 : list bytes).
+  Variables (ms1 : list material) (mat : material) (ms2 : list material).
+  Let ks := ks1 ++ key :: ks2.
+  Let ms := ms1 ++ mat :: ms2.
+  Let idx := N.of_nat (length ms1).
 
-  Lemma decryptor_recovers_gen : forall evs tx rx mgrs,
-    cache_inv mgrs rx -> sk tx = sk rx -> iv tx = iv rx -> (forall d, (cnt rx d <= cnt tx d)%N) ->
-    pdus_ok evs -> capture_ok E tx rx evs = true ->
-    snd (attempt_all E {| keys := [key]; mats := [mat]; managers := mgrs |} (capture E tx evs))
-    = captured_plain evs.
+  (** the combinations the loops try before (mat, key) reject this PDU *)
+  Definition before_reject (mgrs : list ((bytes * N) * mgr)) (a : bytes) : Prop :=
+    Forall (fun im => Forall (combo_rejects mgrs a (fst im) (snd im)) ks) (indexed 0 ms1) /\
+    Forall (combo_rejects mgrs a idx mat) ks1.
+
+  (** side condition along the session's capture: every captured PDU is rejected by the
+      combinations tried before the right one, at the cache of that moment *)
+  Fixpoint session_ok (mgrs : list ((bytes * N) * mgr)) (tx rx : mgr) (evs : list event) : Prop :=
+    match evs with
+    | [] => True
+    | (d, pdu, captured) :: r =>
+      match encrypt E tx pdu d with
+      | Raise _ => False
+      | Ok c =>
+        if captured then
+          let rx' := incr (set_cnt rx d (cnt tx d)) d in
+          before_reject mgrs (air_pdu c) /\ session_ok (store key idx rx' mgrs) (incr tx d) rx' r
+        else session_ok mgrs (incr tx d) rx r
+      end
+    end.
+
+  (** the cache after the session *)
+  Fixpoint session_final (mgrs : list ((bytes * N) * mgr)) (tx rx : mgr) (evs : list event)
+    : list ((bytes * N) * mgr) :=
+    match evs with
+    | [] => mgrs
+    | (d, pdu, captured) :: r =>
+      if captured then
+        let rx' := incr (set_cnt rx d (cnt tx d)) d in session_final (store key idx rx' mgrs) (incr tx d) rx' r
+      else session_final mgrs (incr tx d) rx r
+    end.
+
+  Definition eff (mgrs : list ((bytes * N) * mgr)) (rx : mgr) : Prop :=
+    match lookup key idx mgrs with Some m => Ok m | None => mk_manager E key mat end = Ok rx.
+
+  Lemma session_recovered : forall evs tx rx mgrs,
+    eff mgrs rx -> sk tx = sk rx -> iv tx = iv rx -> (forall d, (cnt rx d <= cnt tx d)%N) ->
+    pdus_ok evs -> capture_ok E tx rx evs = true -> session_ok mgrs tx rx evs ->
+    attempt_all E {| keys := ks; mats := ms; managers := mgrs |} (capture E tx evs)
+    = ({| keys := ks; mats := ms; managers := session_final mgrs tx rx evs |}, captured_plain evs).
   Proof.
-    induction evs as [|[[d pdu] captured] r IH]; intros tx rx mgrs Hinv Hk Hi Hle Hp Hok; [reflexivity|].
+    induction evs as [|[[d pdu] captured] r IH]; intros tx rx mgrs Heff Hk Hi Hle Hp Hok Hso; [reflexivity|].
     inversion Hp as [|? ? Hp1 Hp2]; subst. cbn [fst snd] in Hp1.
     destruct pdu as [|h [|l rest]]; cbn [length] in Hp1; try lia.
-    cbn [capture capture_ok captured_plain] in *.
+    cbn [capture capture_ok captured_plain session_ok session_final] in *.
     destruct (encrypt E tx (h :: l :: rest) d) as [c|e] eqn:He; [|discriminate].
     destruct captured.
     - apply andb_true_iff in Hok as [Hok Hrest]. apply andb_true_iff in Hok as [Hok Hcross].
       apply andb_true_iff in Hok as [Hgap Hrej]. apply Nat.ltb_lt in Hgap.
+      destruct Hso as [[Hb1 Hb2] Hso].
       cbn [attempt_all].
-      rewrite (attempt_captured mgrs tx rx d h l rest c Hinv Hk Hi (Hle d) He Hgap Hrej Hcross).
-      specialize (IH (incr tx d) (incr (set_cnt rx d (cnt tx d)) d)
-                     [(key, incr (set_cnt rx d (cnt tx d)) d)]).
-      destruct (attempt_all E _ (capture E (incr tx d) r)) as [ds2 os] eqn:Hrec.
-      cbn [snd] in *. f_equal. apply IH; try assumption.
-      + right. reflexivity.
+      assert (Hatt : attempt E {| keys := ks; mats := ms; managers := mgrs |} (air_pdu c)
+                     = ({| keys := ks; mats := ms;
+                           managers := store key idx (incr (set_cnt rx d (cnt tx d)) d) mgrs |},
+                        Ok (Some (h :: l :: rest)))).
+      { apply (attempt_material_list {| keys := ks; mats := ms; managers := mgrs |} (air_pdu c)
+                                     ms1 mat ms2 ks1 key ks2); try reflexivity; try assumption.
+        - pose proof He as He'. rewrite encrypt_shape in He'. injection He' as <-. unfold air_pdu. cbn [nth].
+          replace (N.eqb (l + 4) 0) with false by (symmetry; apply N.eqb_neq; lia). reflexivity.
+        - apply (try_key_session mgrs key idx mat tx rx d h l rest c); try assumption. apply Hle. }
+      rewrite Hatt.
+      rewrite (IH (incr tx d) (incr (set_cnt rx d (cnt tx d)) d)
+                  (store key idx (incr (set_cnt rx d (cnt tx d)) d) mgrs)); try assumption.
+      + reflexivity.
+      + unfold eff. rewrite lookup_store_same. reflexivity.
       + rewrite !sk_incr, sk_set_cnt. exact Hk.
       + rewrite !iv_incr, iv_set_cnt. exact Hi.
       + intros d'. destruct (dir_eq_dec d d') as [<-|Hne].
         * rewrite !cnt_incr, cnt_set_cnt. lia.
         * rewrite !cnt_incr_other, cnt_set_cnt_other by assumption. apply Hle.
-    - apply IH with (rx := rx); try assumption.
+    - apply IH; try assumption.
       + rewrite sk_incr. exact Hk.
       + rewrite iv_incr. exact Hi.
       + intros d'. destruct (dir_eq_dec d d') as [<-|Hne].
         * rewrite cnt_incr. specialize (Hle d). lia.
         * rewrite cnt_incr_other by assumption. apply Hle.
   Qed.
+End Decryptor.
 
-  Lemma decryptor_recovers_plaintext evs :
+Lemma attempt_all_app E ds a b :
+  attempt_all E ds (a ++ b) =
+  let '(ds1, o1) := attempt_all E ds a in let '(ds2, o2) := attempt_all E ds1 b in (ds2, o1 ++ o2).
+Proof.
+  revert ds. induction a as [|p a IH]; intros ds; cbn [app attempt_all].
+  - destruct (attempt_all E ds b). reflexivity.
+  - destruct (attempt E ds p) as [ds1 o]. rewrite IH.
+    destruct (attempt_all E ds1 a) as [ds2 o1]. destruct (attempt_all E ds2 b) as [ds3 o2]. reflexivity.
+Qed.
+
+Lemma lookup_store_other_idx k i x k' i' l : i <> i' -> lookup k' i' (store k i x l) = lookup k' i' l.
+Proof.
+  intros Hne. assert (Hf : N.eqb i' i = false) by (apply N.eqb_neq; congruence).
+  induction l as [|[[k0 i0] m] r IH]; cbn [lookup store].
+  - rewrite Hf, andb_false_r. reflexivity.
+  - destruct (bytes_eqb k k0 && N.eqb i i0)%bool eqn:Eq; cbn [lookup].
+    + apply andb_true_iff in Eq as [_ Ei]. apply N.eqb_eq in Ei. subst i0. rewrite Hf, andb_false_r. reflexivity.
+    + rewrite IH. reflexivity.
+Qed.
+
+Lemma lookup_session_final_other key ms1 k' i' : i' <> N.of_nat (length ms1) ->
+  forall evs mgrs tx rx, lookup k' i' (session_final key ms1 mgrs tx rx evs) = lookup k' i' mgrs.
+Proof.
+  intros Hne. induction evs as [|[[d pdu] cap] r IH]; intros mgrs tx rx; cbn [session_final]; [reflexivity|].
+  destruct cap; rewrite IH; [|reflexivity]. apply lookup_store_other_idx. congruence.
+Qed.
+
+Section DecryptorTheorems.
+  Variable E : bytes -> bytes -> bytes.
+  Hypothesis E_length : forall k b, length (E k b) = 16.
+
+  (** when nothing is tried before (first material, first key) the side condition is void *)
+  Lemma session_ok_first key ks2 mat : forall evs mgrs tx rx,
+    capture_ok E tx rx evs = true -> session_ok E [] key ks2 [] mat mgrs tx rx evs.
+  Proof.
+    induction evs as [|[[d pdu] cap] r IH]; intros mgrs tx rx H; cbn [session_ok capture_ok] in *; [exact I|].
+    destruct (encrypt E tx pdu d); [|discriminate]. destruct cap.
+    - apply andb_true_iff in H as [_ H]. split; [split; constructor|]. apply IH. exact H.
+    - apply IH. exact H.
+  Qed.
+
+  (** the single session, one key, one material, empty cache *)
+  Lemma decryptor_recovers_plaintext key mat st0 evs :
+    mk_manager E key mat = Ok st0 ->
     pdus_ok evs -> capture_ok E st0 st0 evs = true ->
     snd (attempt_all E {| keys := [key]; mats := [mat]; managers := [] |} (capture E st0 evs))
     = captured_plain evs.
   Proof.
-    intros Hp Hok. apply (decryptor_recovers_gen evs st0 st0 []); try assumption; try reflexivity.
-    left. split; reflexivity.
+    intros Hst Hp Hok.
+    pose proof (session_recovered E E_length [] key [] [] mat [] evs st0 st0 []) as R.
+    cbn [app length] in R. rewrite R; try assumption; try reflexivity; try (intros d; lia).
+    all: try (apply session_ok_first; exact Hok); try (unfold eff; cbn [lookup length]; exact Hst).
   Qed.
 
   (** an empty PDU (LLID 1, length 0) is never decrypted and touches nothing *)
@@ -627,21 +737,103 @@ Section Decryptor.
     intros Hm Hks Hl. unfold attempt. destruct (mats ds); [contradiction|]. destruct (keys ds); [contradiction|].
     cbn [nth]. rewrite Hl. reflexivity.
   Qed.
-End Decryptor.
 
-(** * "any protected-bit change fails, for every E" is false: the constant block function *)
-Lemma tamper_always_fails_refuted : ~ tamper_always_fails_statement.
-Proof.
-  intros H.
-  destruct (H (fun _ _ => zeros 16) (fun _ _ => eq_refl)
-              {| sk := []; iv := []; mcnt := 0; scnt := 0 |} [2; 1; 5]%N M2S
-              [2; 1; 5; 0; 0; 0; 0]%N [2; 1; 6; 0; 0; 0; 0]%N) as [q Hq].
-  - cbn. lia.
-  - vm_compute. reflexivity.
-  - reflexivity.
-  - vm_compute. discriminate.
-  - vm_compute in Hq. discriminate.
-Qed.
+  (** several sessions in one capture, per PDU, from an arbitrary decryptor state *)
+  Lemma decryptor_multi_session_pdu (ds : dstate) ms1 mat ms2 ks1 key ks2 tx rx d h l rest c :
+    mats ds = ms1 ++ mat :: ms2 -> keys ds = ks1 ++ key :: ks2 ->
+    match lookup key (N.of_nat (length ms1)) (managers ds) with Some m => Ok m | None => mk_manager E key mat end = Ok rx ->
+    sk tx = sk rx -> iv tx = iv rx -> (cnt rx d <= cnt tx d)%N ->
+    encrypt E tx (h :: l :: rest) d = Ok c ->
+    let a := air_pdu c in
+    let gap := N.to_nat (cnt tx d - cnt rx d) in
+    gap < 2 -> rejects_from E rx d (cnt rx d) gap a = true ->
+    match d with M2S => true | S2M => rejects_from E rx M2S (cnt rx M2S) 2 a end = true ->
+    Forall (fun im => Forall (combo_rejects E (managers ds) a (fst im) (snd im)) (keys ds)) (indexed 0 ms1) ->
+    Forall (combo_rejects E (managers ds) a (N.of_nat (length ms1)) mat) ks1 ->
+    attempt E ds a
+    = ({| keys := keys ds; mats := mats ds;
+          managers := store key (N.of_nat (length ms1)) (incr (set_cnt rx d (cnt tx d)) d) (managers ds) |},
+       Ok (Some (h :: l :: rest))).
+  Proof.
+    intros Hm Hk Heff Hsk Hiv Hle He a gap Hgap Hrej Hcross Hms Hks.
+    eapply attempt_material_list; try eassumption.
+    - rewrite encrypt_shape in He. injection He as <-. unfold a, air_pdu. cbn [nth].
+      replace (N.eqb (l + 4) 0) with false by (symmetry; apply N.eqb_neq; lia). reflexivity.
+    - eapply try_key_session; eassumption.
+  Qed.
+
+  (** ** whole captures made of several successive sessions *)
+  Record sess := { s_ks1 : list bytes; s_key : bytes; s_ks2 : list bytes;
+                   s_ms1 : list material; s_mat : material; s_ms2 : list material;
+                   s_st0 : mgr; s_evs : list event }.
+
+  (** the session's key and material sit in the decryptor's lists, its capture is well formed *)
+  Definition sess_wf (ks : list bytes) (ms : list material) (s : sess) : Prop :=
+    ks = s_ks1 s ++ s_key s :: s_ks2 s /\ ms = s_ms1 s ++ s_mat s :: s_ms2 s /\
+    mk_manager E (s_key s) (s_mat s) = Ok (s_st0 s) /\ pdus_ok (s_evs s) /\
+    capture_ok E (s_st0 s) (s_st0 s) (s_evs s) = true.
+
+  Definition sess_idx (s : sess) : N := N.of_nat (length (s_ms1 s)).
+
+  Definition sess_final (mgrs : list ((bytes * N) * mgr)) (s : sess) :=
+    session_final (s_key s) (s_ms1 s) mgrs (s_st0 s) (s_st0 s) (s_evs s).
+
+  (** side condition along the capture: each session starts with no manager cached for its
+      (key, material) and its PDUs are rejected by the combinations tried before (MAC condition) *)
+  Fixpoint sessions_ok (mgrs : list ((bytes * N) * mgr)) (l : list sess) : Prop :=
+    match l with
+    | [] => True
+    | s :: r => lookup (s_key s) (sess_idx s) mgrs = None /\
+                session_ok E (s_ks1 s) (s_key s) (s_ks2 s) (s_ms1 s) (s_mat s) mgrs (s_st0 s) (s_st0 s) (s_evs s) /\
+                sessions_ok (sess_final mgrs s) r
+    end.
+
+  Lemma decryptor_recovers_sessions ks ms : forall (l : list sess) mgrs,
+    Forall (sess_wf ks ms) l -> sessions_ok mgrs l ->
+    snd (attempt_all E {| keys := ks; mats := ms; managers := mgrs |}
+                     (concat (map (fun s => capture E (s_st0 s) (s_evs s)) l)))
+    = concat (map (fun s => captured_plain (s_evs s)) l).
+  Proof.
+    induction l as [|s r IH]; intros mgrs Hwf Hok; [reflexivity|].
+    apply Forall_cons_iff in Hwf as [(Hks & Hms & Hst & Hp & Hc) Hrest].
+    destruct Hok as (Hnone & Hso & Hnext).
+    cbn [map concat]. rewrite attempt_all_app.
+    pose proof (session_recovered E E_length (s_ks1 s) (s_key s) (s_ks2 s) (s_ms1 s) (s_mat s) (s_ms2 s)
+                                  (s_evs s) (s_st0 s) (s_st0 s) mgrs) as R.
+    rewrite <- Hks, <- Hms in R. rewrite R; try assumption; try reflexivity; try (intros d; lia).
+    - fold (sess_final mgrs s).
+      specialize (IH (sess_final mgrs s) Hrest Hnext).
+      destruct (attempt_all E _ (concat (map (fun s0 => capture E (s_st0 s0) (s_evs s0)) r))) as [ds2 o2].
+      cbn [snd] in *. rewrite IH. reflexivity.
+    - unfold eff. fold (sess_idx s). rewrite Hnone. exact Hst.
+  Qed.
+
+  (** two successive sessions under the SAME key with fresh SKD/IV (reconnection of bonded
+      devices): both are recovered. The second session's PDUs are first tried with the first
+      session's cached manager, where they must be rejected ([session_ok]: MAC condition). *)
+  Lemma same_key_sessions key m1 m2 st1 st2 evs1 evs2 :
+    mk_manager E key m1 = Ok st1 -> mk_manager E key m2 = Ok st2 ->
+    pdus_ok evs1 -> pdus_ok evs2 ->
+    capture_ok E st1 st1 evs1 = true -> capture_ok E st2 st2 evs2 = true ->
+    session_ok E [] key [] [m1] m2 (session_final key [] [] st1 st1 evs1) st2 st2 evs2 ->
+    snd (attempt_all E {| keys := [key]; mats := [m1; m2]; managers := [] |}
+                     (capture E st1 evs1 ++ capture E st2 evs2))
+    = captured_plain evs1 ++ captured_plain evs2.
+  Proof.
+    intros H1 H2 Hp1 Hp2 Hc1 Hc2 Hso.
+    pose (sa := {| s_ks1 := []; s_key := key; s_ks2 := []; s_ms1 := []; s_mat := m1; s_ms2 := [m2];
+                   s_st0 := st1; s_evs := evs1 |}).
+    pose (sb := {| s_ks1 := []; s_key := key; s_ks2 := []; s_ms1 := [m1]; s_mat := m2; s_ms2 := [];
+                   s_st0 := st2; s_evs := evs2 |}).
+    pose proof (decryptor_recovers_sessions [key] [m1; m2] [sa; sb] []) as R.
+    cbn [map concat s_st0 s_evs sa sb] in R. rewrite !app_nil_r in R. apply R.
+    - repeat constructor; cbn; assumption.
+    - cbn [sessions_ok]. split; [reflexivity|]. split; [apply session_ok_first; exact Hc1|].
+      split; [|split; [exact Hso|exact I]].
+      unfold sess_final, sess_idx. cbn [s_key s_ms1 s_st0 s_evs sa sb length].
+      rewrite lookup_session_final_other; [reflexivity|cbn; lia].
+  Qed.
+End DecryptorTheorems.
 
 (** * The stack's encryption start procedure *)
 Lemma cfind_cupd_same h f l : cfind h (cupd h f l) = option_map f (cfind h l).
@@ -938,130 +1130,17 @@ Proof.
   specialize (H Hne). vm_compute in H. discriminate.
 Qed.
 
-(** * The decryptor with several materials and keys (several sessions in one capture) *)
-Section MultiSession.
-  Variable E : bytes -> bytes -> bytes.
-  Hypothesis E_length : forall k b, length (E k b) = 16.
 
-  (** a (material, key) combination that reports failure and leaves the cache as it is *)
-  Definition combo_rejects (mgrs : list (bytes * mgr)) (pdu : bytes) (mat : material) (k : bytes) : Prop :=
-    try_key E mgrs k mat pdu = (mgrs, Ok None).
-
-  Lemma try_keys_skip mat pdu mgrs ks2 : forall ks1,
-    Forall (combo_rejects mgrs pdu mat) ks1 ->
-    try_keys E mgrs (ks1 ++ ks2) mat pdu = try_keys E mgrs ks2 mat pdu.
-  Proof.
-    induction ks1 as [|k r IH]; intros H; [reflexivity|].
-    inversion H as [|? ? Hk Hr]; subst. cbn [app try_keys]. rewrite Hk. apply IH. exact Hr.
-  Qed.
-
-  Lemma try_keys_all_reject mat pdu mgrs ks :
-    Forall (combo_rejects mgrs pdu mat) ks -> try_keys E mgrs ks mat pdu = (mgrs, Ok None).
-  Proof. intros H. rewrite <- (app_nil_r ks). rewrite try_keys_skip by exact H. reflexivity. Qed.
-
-  Lemma try_mats_skip pdu mgrs ks ms2 : forall ms1,
-    Forall (fun m => Forall (combo_rejects mgrs pdu m) ks) ms1 ->
-    try_mats E mgrs ks (ms1 ++ ms2) pdu = try_mats E mgrs ks ms2 pdu.
-  Proof.
-    induction ms1 as [|m r IH]; intros H; [reflexivity|].
-    inversion H as [|? ? Hm Hr]; subst. cbn [app try_mats].
-    rewrite (try_keys_all_reject m pdu mgrs ks Hm). apply IH. exact Hr.
-  Qed.
-
-  (** The materials are tried in order and, for each, the keys in order: combinations tried
-      before the right one do not matter as long as they reject; the first accepting
-      combination gives the result. Arbitrary decryptor state. *)
-  Lemma attempt_material_list (ds : dstate) pdu ms1 mat ms2 ks1 key ks2 mgrs' p :
-    mats ds = ms1 ++ mat :: ms2 -> keys ds = ks1 ++ key :: ks2 ->
-    (N.eqb (nth 1 pdu 0%N) 0 && N.eqb (N.land (nth 0 pdu 0%N) 3) 1)%bool = false ->
-    Forall (fun m => Forall (combo_rejects (managers ds) pdu m) (keys ds)) ms1 ->
-    Forall (combo_rejects (managers ds) pdu mat) ks1 ->
-    try_key E (managers ds) key mat pdu = (mgrs', Ok (Some p)) ->
-    attempt E ds pdu = ({| keys := keys ds; mats := mats ds; managers := mgrs' |}, Ok (Some p)).
-  Proof.
-    intros Hm Hk Hne Hms Hks Hhit. unfold attempt.
-    destruct (mats ds) as [|m0 mr] eqn:Em; [destruct ms1; discriminate|].
-    destruct (keys ds) as [|k0 kr] eqn:Ek; [destruct ks1; discriminate|].
-    rewrite Hne. rewrite Hm. rewrite try_mats_skip by exact Hms.
-    cbn [try_mats]. rewrite Hk. rewrite try_keys_skip by exact Hks.
-    cbn [try_keys]. rewrite Hhit. rewrite <- Hm, <- Hk. reflexivity.
-  Qed.
-
-  (** the right (key, material) of a session recovers its PDU whatever else is cached:
-      [rx] is the manager the decryptor uses for that key (cached one, or a fresh one) *)
-  Lemma try_key_session mgrs key mat tx rx d h l rest c :
-    match lookup key mgrs with Some m => Ok m | None => mk_manager E key mat end = Ok rx ->
-    sk tx = sk rx -> iv tx = iv rx -> (cnt rx d <= cnt tx d)%N ->
-    encrypt E tx (h :: l :: rest) d = Ok c ->
-    let a := air_pdu c in
-    let gap := N.to_nat (cnt tx d - cnt rx d) in
-    gap < 2 -> rejects_from E rx d (cnt rx d) gap a = true ->
-    match d with M2S => true | S2M => rejects_from E rx M2S (cnt rx M2S) 2 a end = true ->
-    try_key E mgrs key mat a
-    = (store key (incr (set_cnt rx d (cnt tx d)) d) mgrs, Ok (Some (h :: l :: rest))).
-  Proof.
-    intros Heff Hk Hi Hle He a gap Hgap Hrej Hcross.
-    rewrite encrypt_shape in He. injection He as <-.
-    unfold air_pdu in a. cbn iota in a.
-    assert (Hc : cnt tx d = (cnt rx d + N.of_nat gap)%N) by (unfold gap; lia).
-    destruct (decrypt_encrypt_gen E E_length tx rx h l (l + 4)%N rest d 2 gap Hk Hi Hc Hgap Hrej) as [Hd _].
-    fold a in Hd.
-    unfold try_key. rewrite Heff.
-    destruct d.
-    - rewrite Hd. cbn [strip_mic_len]. rewrite N.add_sub. reflexivity.
-    - destruct (tamper_fails_if_mac_differs E E_length rx a M2S 2) as [q Hf];
-        [unfold a; discriminate|lia|exact Hcross|].
-      rewrite Hf. rewrite Hd. cbn [strip_mic_len]. rewrite N.add_sub. reflexivity.
-  Qed.
-
-  (** Several sessions in one capture: a captured PDU of ANY session whose key and material the
-      decryptor holds (anywhere in its lists) is recovered exactly, from an arbitrary decryptor
-      state, provided the combinations tried before reject it (MAC condition) and the manager
-      used for the session's key is in step with the sender within the tolerance. *)
-  Lemma decryptor_multi_session_pdu (ds : dstate) ms1 mat ms2 ks1 key ks2 tx rx d h l rest c :
-    mats ds = ms1 ++ mat :: ms2 -> keys ds = ks1 ++ key :: ks2 ->
-    match lookup key (managers ds) with Some m => Ok m | None => mk_manager E key mat end = Ok rx ->
-    sk tx = sk rx -> iv tx = iv rx -> (cnt rx d <= cnt tx d)%N ->
-    encrypt E tx (h :: l :: rest) d = Ok c ->
-    let a := air_pdu c in
-    let gap := N.to_nat (cnt tx d - cnt rx d) in
-    gap < 2 -> rejects_from E rx d (cnt rx d) gap a = true ->
-    match d with M2S => true | S2M => rejects_from E rx M2S (cnt rx M2S) 2 a end = true ->
-    Forall (fun m => Forall (combo_rejects (managers ds) a m) (keys ds)) ms1 ->
-    Forall (combo_rejects (managers ds) a mat) ks1 ->
-    attempt E ds a
-    = ({| keys := keys ds; mats := mats ds;
-          managers := store key (incr (set_cnt rx d (cnt tx d)) d) (managers ds) |},
-       Ok (Some (h :: l :: rest))).
-  Proof.
-    intros Hm Hk Heff Hsk Hiv Hle He a gap Hgap Hrej Hcross Hms Hks.
-    apply (attempt_material_list ds a ms1 mat ms2 ks1 key ks2); try assumption.
-    - rewrite encrypt_shape in He. injection He as <-. unfold a, air_pdu. cbn [nth].
-      replace (N.eqb (l + 4) 0) with false by (symmetry; apply N.eqb_neq; lia). reflexivity.
-    - apply (try_key_session (managers ds) key mat tx rx d h l rest c); assumption.
-  Qed.
-End MultiSession.
-
-(** a later session that reuses the key of an earlier one with fresh SKD/IV is NOT recovered:
-    the cache is keyed by the key alone (known finding decryptor-cache-keyed-by-key-only) *)
-Definition same_key_sessions_statement : Prop :=
-  forall (key : bytes) (m1 m2 : material) (st1 st2 : mgr) (evs1 evs2 : list event),
-    mk_manager aes128_enc key m1 = Ok st1 -> mk_manager aes128_enc key m2 = Ok st2 ->
-    pdus_ok evs1 -> pdus_ok evs2 ->
-    capture_ok aes128_enc st1 st1 evs1 = true -> capture_ok aes128_enc st2 st2 evs2 = true ->
-    snd (attempt_all aes128_enc {| keys := [key]; mats := [m1; m2]; managers := [] |}
-                     (capture aes128_enc st1 evs1 ++ capture aes128_enc st2 evs2))
-    = captured_plain evs1 ++ captured_plain evs2.
-
-Lemma same_key_sessions_refuted : ~ same_key_sessions_statement.
+(** * "any protected-bit change fails, for every E" is false: the constant block function *)
+Lemma tamper_always_fails_refuted : ~ tamper_always_fails_statement.
 Proof.
   intros H.
-  pose (m2 := {| m_skd := 5; m_iv := 6; s_skd := 7; s_iv := 8 |}).
-  pose (evs := [(M2S, [2; 3; 97; 98; 99]%N, true); (S2M, [10; 2; 1; 2]%N, true)] : list event).
-  destruct (mk_manager aes128_enc nv_key nv_mat) as [st1|] eqn:E1; [|vm_compute in E1; discriminate].
-  destruct (mk_manager aes128_enc nv_key m2) as [st2|] eqn:E2; [|vm_compute in E2; discriminate].
-  specialize (H nv_key nv_mat m2 st1 st2 evs evs E1 E2).
-  vm_compute in E1. injection E1 as <-. vm_compute in E2. injection E2 as <-.
-  assert (P : pdus_ok evs) by (repeat constructor).
-  specialize (H P P). vm_compute in H. specialize (H eq_refl eq_refl). discriminate.
+  destruct (H (fun _ _ => zeros 16) (fun _ _ => eq_refl)
+              {| sk := []; iv := []; mcnt := 0; scnt := 0 |} [2; 1; 5]%N M2S
+              [2; 1; 5; 0; 0; 0; 0]%N [2; 1; 6; 0; 0; 0; 0]%N) as [q Hq].
+  - cbn. lia.
+  - vm_compute. reflexivity.
+  - reflexivity.
+  - vm_compute. discriminate.
+  - vm_compute in Hq. discriminate.
 Qed.
